@@ -186,6 +186,12 @@ impl BasicLexer {
                     tokens_iter.next();
                 }
             }
+            if let Token::Operator(Operator::Greater) = tt[0] {
+                if let Token::Operator(Operator::Less) = tt[1] {
+                    locs.push((index, Token::Operator(Operator::NotEqual)));
+                    tokens_iter.next();
+                }
+            }
         }
         while let Some((index, token)) = locs.pop() {
             tokens.splice(index..index + 2, Some(token));
